@@ -83,8 +83,8 @@ func init() {
 		},
 		{
 			ID:          "C02",
-			Rules:       []RuleUse{{Rule: "R-GATE", Bodies: []string{"v5", "codec"}, KeyHas: []string{"MergePatch", "sink "}}, use("R-MERGEWIRE", "v5"), {Rule: "R-NIL", Bodies: []string{"v5"}, KeyHas: []string{"doMergePatch", "merge", "prune"}}, {Rule: "R-KEYS", Bodies: []string{"v5"}, KeyHas: []string{"mergeDocs", "pruneDocNulls", "doMergePatch", "(*partialDoc)", "emitter"}}},
-			Explanation: "Decided for the v5 body: R-GATE (both inputs of MergePatch pass json.Valid before the validity-assuming parse), R-MERGEWIRE (MergePatch runs doMergePatch in apply mode with its parameters in order), R-NIL over doMergePatch/merge/mergeDocs/prune* (the nil nodes that stand for null members are never dereferenced), R-KEYS over the merge walk (merged members are neither lost nor duplicated: keys/obj pairing in mergeDocs and partialDoc.set/remove; pruning does not skip members — no loop over keys rewrites keys; a null document is rejected before its stale key list could be used).",
+			Rules:       []RuleUse{{Rule: "R-GATE", Bodies: []string{"v5", "codec"}, KeyHas: []string{"MergePatch", "sink "}}, use("R-MERGEWIRE", "v5"), {Rule: "R-NIL", Bodies: []string{"v5"}, KeyHas: []string{"doMergePatch", "merge", "prune"}}, {Rule: "R-KEYS", Bodies: []string{"v5"}, KeyHas: []string{"mergeDocs", "pruneDocNulls", "doMergePatch", "(*partialDoc)", "emitter"}}, {Rule: "R-ROOTDISPATCH", Bodies: []string{"v5"}, KeyHas: []string{"MergePatch", "doMergePatch"}}, {Rule: "R-ABSENT", Bodies: []string{"v5"}, KeyHas: []string{"mergeDocs"}}},
+			Explanation: "Decided for the v5 body: R-GATE (both inputs of MergePatch pass json.Valid before the validity-assuming parse), R-MERGEWIRE (MergePatch runs doMergePatch in apply mode with its parameters in order), R-NIL over doMergePatch/merge/mergeDocs/prune* (the nil nodes that stand for null members are never dereferenced), R-KEYS over the merge walk (merged members are neither lost nor duplicated: keys/obj pairing in mergeDocs and partialDoc.set/remove; pruning does not skip members — no loop over keys rewrites keys; a null document is rejected before its stale key list could be used), R-ROOTDISPATCH (whether the patch is an object is never decided from a fixed-offset byte of possibly padded text), R-ABSENT (mergeDocs tells an absent target member from a null one by comma-ok).",
 			NotDecided:  "that the recursive member-by-member result equals RFC 7396 MergePatch(doc, patch) (value-level); the 'non-object document is treated as {}' clause.",
 			Trusted:     commonTrusted, Assumptions: commonAssumptions,
 		},
@@ -104,15 +104,15 @@ func init() {
 		},
 		{
 			ID:          "C05",
-			Rules:       []RuleUse{use("R-KEYS", "v5"), use("R-MAPORDER", "v5"), use("R-KEYORDER", "codec"), use("R-NUM", "v5", "codec"), {Rule: "R-POOLINIT", Bodies: []string{"codec"}, KeyHas: []string{"useNumber"}}},
-			Explanation: "Decided for the v5 body and the codec: R-KEYS (the ordered-object invariant: every insert into obj is paired with a membership-scan-guarded append of the same key to keys and vice versa, every delete with the removal of the scanned slot and vice versa, whole-map stores with a keys store, the decoder fill with its own key list; a replaced member keeps its slot — no remove followed by re-creation of the same key; no loop over keys rewrites keys; the emitter ranges over keys and emits obj[k], never ranging over the map; inserts happen under obj != nil), R-KEYORDER (the decoder records each key once per member, unconditionally, before the value, in a call-local list published once), R-NUM (number literals are never parsed, converted or reformatted: convertNumber returns the literal, the encoder writes it back, unparsed nodes re-emit raw bytes, Numbers are compared only by literal equality), R-POOLINIT (useNumber is forced in every decoder entry point), R-MAPORDER (no order-sensitive effect under a map range on the Apply/CreateMergePatch/Equal paths).",
+			Rules:       []RuleUse{use("R-KEYS", "v5"), use("R-ABSENT", "v5"), use("R-MAPORDER", "v5"), use("R-KEYORDER", "codec"), use("R-NUM", "v5", "codec"), {Rule: "R-POOLINIT", Bodies: []string{"codec"}, KeyHas: []string{"useNumber"}}},
+			Explanation: "Decided for the v5 body and the codec: R-KEYS (the ordered-object invariant: every insert into obj is paired with a membership-scan-guarded append of the same key to keys and vice versa, every delete with the removal of the scanned slot and vice versa, whole-map stores with a keys store, the decoder fill with its own key list; a replaced member keeps its slot — no remove followed by re-creation of the same key; no loop over keys rewrites keys; the emitter ranges over keys and emits obj[k], never ranging over the map; inserts happen under obj != nil), R-ABSENT (membership in the member map is only ever decided by comma-ok or by the keys list, never by comparing the looked-up value with nil — a null member is a member), R-KEYORDER (the decoder records each key once per member, unconditionally, before the value, in a call-local list published once), R-NUM (number literals are never parsed, converted or reformatted: convertNumber returns the literal, the encoder writes it back, unparsed nodes re-emit raw bytes, Numbers are compared only by literal equality), R-POOLINIT (useNumber is forced in every decoder entry point), R-MAPORDER (no order-sensitive effect under a map range on the Apply/CreateMergePatch/Equal paths).",
 			NotDecided:  "byte-exact fidelity of every literal through compact beyond the escaping substitutions; string value preservation through unquote/quote (C17's domain); the order in which MergePatch appends several new members (map iteration order, allowed by the property as worded).",
 			Trusted:     commonTrusted, Assumptions: commonAssumptions,
 		},
 		{
 			ID:          "C06",
-			Rules:       []RuleUse{{Rule: "R-GATE", Bodies: []string{"v5", "codec"}, KeyHas: []string{"Equal", "sink "}}, {Rule: "R-NIL", Bodies: []string{"v5"}, KeyHas: []string{"Equal", ".equal", "tryDoc", "tryAry", "compact", "isNull", "nextByte"}}, {Rule: "R-TYPESTATE", Bodies: []string{"v5"}, KeyHas: []string{".equal", "tryDoc", "tryAry"}}, {Rule: "R-RAW", Bodies: []string{"v5"}, KeyHas: []string{"compact", "tryDoc", "tryAry", "nextByte", "newLazyNode"}}, {Rule: "R-STALERAW", Bodies: []string{"v5"}, KeyHas: []string{".equal", "isNull", "compact", "tryDoc", "tryAry"}}, {Rule: "R-NUM", Bodies: []string{"v5"}, KeyHas: []string{"never parsed"}}, {Rule: "R-MAPORDER", Bodies: []string{"v5"}, KeyHas: []string{".equal"}}},
-			Explanation: "Decided for the v5 body: R-GATE on both parameters of Equal with the invalid edge returning false, R-NIL + R-TYPESTATE + R-RAW + R-STALERAW over Equal, (*lazyNode).equal, tryDoc, tryAry, compact, isNull (Equal is total: null roots, nulls inside arrays and as members, an array against null never dereference a nil node; comparison never re-reads stale bytes of a parsed node), R-NUM (no numeric parsing anywhere in the library: numbers are compared as literals, so distinct literals are never equal), R-MAPORDER (the member loop of equal has no order-sensitive effect).",
+			Rules:       []RuleUse{{Rule: "R-GATE", Bodies: []string{"v5", "codec"}, KeyHas: []string{"Equal", "sink "}}, {Rule: "R-NIL", Bodies: []string{"v5"}, KeyHas: []string{"Equal", ".equal", "tryDoc", "tryAry", "compact", "isNull", "nextByte"}}, {Rule: "R-TYPESTATE", Bodies: []string{"v5"}, KeyHas: []string{".equal", "tryDoc", "tryAry"}}, {Rule: "R-RAW", Bodies: []string{"v5"}, KeyHas: []string{"compact", "tryDoc", "tryAry", "nextByte", "newLazyNode"}}, {Rule: "R-STALERAW", Bodies: []string{"v5"}, KeyHas: []string{".equal", "isNull", "compact", "tryDoc", "tryAry"}}, {Rule: "R-NUM", Bodies: []string{"v5"}, KeyHas: []string{"never parsed"}}, {Rule: "R-MAPORDER", Bodies: []string{"v5"}, KeyHas: []string{".equal"}}, {Rule: "R-ABSENT", Bodies: []string{"v5"}, KeyHas: []string{".equal"}}},
+			Explanation: "Decided for the v5 body: R-GATE on both parameters of Equal with the invalid edge returning false, R-NIL + R-TYPESTATE + R-RAW + R-STALERAW over Equal, (*lazyNode).equal, tryDoc, tryAry, compact, isNull (Equal is total: null roots, nulls inside arrays and as members, an array against null never dereference a nil node; comparison never re-reads stale bytes of a parsed node), R-NUM (no numeric parsing anywhere in the library: numbers are compared as literals, so distinct literals are never equal), R-MAPORDER (the member loop of equal has no order-sensitive effect), R-ABSENT (the member comparison looks the other side up with comma-ok and tests the flag: a null member is never equal to an absent one).",
 			NotDecided:  "reflexivity/symmetry/transitivity and agreement with an independent deep comparison (value-level); string comparison after unescaping.",
 			Trusted:     commonTrusted, Assumptions: commonAssumptions,
 		},
@@ -174,15 +174,15 @@ func init() {
 		},
 		{
 			ID:          "C15",
-			Rules:       []RuleUse{use("R-ESCSET", "codec"), use("R-TABLES", "codec"), use("R-OPTS", "v5"), use("R-INDENT", "v5"), {Rule: "R-COPYLIMIT", Bodies: []string{"v5"}, KeyHas: []string{"measured as spelled"}}, {Rule: "R-KEYS", Bodies: []string{"v5"}, KeyHas: []string{"emitter"}}, {Rule: "R-STALERAW", Bodies: []string{"v5"}}},
+			Rules:       []RuleUse{use("R-ESCSET", "codec"), use("R-TABLES", "codec"), use("R-OPTS", "v5"), use("R-INDENT", "v5"), {Rule: "R-GATE", Bodies: []string{"v5"}, KeyHas: []string{"ApplyIndentWithOptions: accepting return"}}, {Rule: "R-COPYLIMIT", Bodies: []string{"v5"}, KeyHas: []string{"measured as spelled"}}, {Rule: "R-KEYS", Bodies: []string{"v5"}, KeyHas: []string{"emitter"}}, {Rule: "R-STALERAW", Bodies: []string{"v5"}}},
 			Explanation: "Decided: R-ESCSET + R-TABLES (codec; exact byte sets by path enumeration: with the flag on, compact — which copies raw values into the output — rewrites exactly {<,>,&} as \\u00XX and E2 80 A8/A9 as \\u202X, and nothing with the flag off; whether a byte is rewritten depends on nothing but the flag parameter and the bytes; HTMLEscape does the same; the two string encoders backslash-escape exactly the control characters, quote and backslash, plus {<,>,&} iff escapeHTML; the tables safeSet/htmlSafeSet/hex have the required contents; MarshalEscaped hands its argument, Marshal the constant true, to the encoders and on to compact). For the v5 body: R-OPTS (every partialDoc that can reach the output carries the caller's options: all composite literals set opts; decoder-allocated documents get doc.opts before the node becomes eDoc, or the node is a scratch copy / has opts stored before it is published; the emitter passes opts.EscapeHTML — true only when opts is nil — to both of its encoder calls), R-INDENT (ApplyIndent hands Indent exactly the bytes Apply returns, produced by MarshalEscaped(document, options.EscapeHTML), with prefix \"\" and the caller's indent, and returns the buffer Indent wrote), R-COPYLIMIT(ii) (copies are re-encoded with the same encoder and flag as the output), R-KEYS emitter (name then obj[name], keys order), R-STALERAW (a passing test never re-parses or re-spells a document node: comparisons work on scratch copies).",
 			NotDecided:  "that an independent parser reads the output back as the intended value; UTF-8 validity of outputs; byte identity of outputs with and without passing test operations beyond the no-re-parse mechanism.",
 			Trusted:     commonTrusted, Assumptions: commonAssumptions,
 		},
 		{
 			ID:          "C16",
-			Rules:       []RuleUse{use("R-SCAN", "codec"), use("R-DRIVER", "codec"), use("R-GATE", "v5", "codec")},
-			Explanation: "Decided: R-SCAN — the language of the embedded scanner is decided COMPLETELY: the transition relation of every state function is extracted from the current source by exact byte-set abstract interpretation (7 stack contexts each) and proved language-equivalent, by product exploration with synchronised stacks, to an RFC 8259 reference pushdown automaton written independently in the checker (itself cross-checked against a recursive-descent recogniser on all strings up to length 5/6 over 16 symbols); the nesting test is len <= 10000. R-DRIVER — Valid, checkValid, compact (Compact) and Indent feed every byte of the whole input to the scanner in order, stop on scanError and accept iff eof() does; Unmarshal/UnmarshalWithKeys return checkValid's error before decoding. R-GATE — every public v5 entry point consults json.Valid on each []byte parameter before parsing; the invalid edge returns an error / false; every return that can report success lies behind the gate (one known finding: the empty document is accepted by Apply before the gate).",
+			Rules:       []RuleUse{use("R-SCAN", "codec"), use("R-DRIVER", "codec"), use("R-GATE", "v5", "codec"), use("R-ROOTDISPATCH", "v5"), use("R-WS", "v5")},
+			Explanation: "Decided: R-SCAN — the language of the embedded scanner is decided COMPLETELY: the transition relation of every state function is extracted from the current source by exact byte-set abstract interpretation (7 stack contexts each) and proved language-equivalent, by product exploration with synchronised stacks, to an RFC 8259 reference pushdown automaton written independently in the checker (itself cross-checked against a recursive-descent recogniser on all strings up to length 5/6 over 16 symbols); the nesting test is len <= 10000. R-DRIVER — Valid, checkValid, compact (Compact) and Indent feed every byte of the whole input to the scanner in order, stop on scanError and accept iff eof() does; Unmarshal/UnmarshalWithKeys return checkValid's error before decoding. R-GATE — every public v5 entry point consults json.Valid on each []byte parameter before parsing; the invalid edge returns an error / false; every return that can report success lies behind the gate (one known finding: the empty document is accepted by Apply before the gate). R-ROOTDISPATCH + R-WS — no entry point classifies its input by a fixed-offset byte of possibly padded text: root-kind predicates skip exactly the JSON whitespace set (computed byte sets) or trim it completely, so every well-formed text with leading/trailing whitespace is routed like the same text without it.",
 			NotDecided:  "that the decoding pass agrees with the scanner on valid input (trusted codec contract); acceptance by the legacy package is the standard library's.",
 			Trusted:     commonTrusted, Assumptions: commonAssumptions,
 		},
@@ -195,15 +195,15 @@ func init() {
 		},
 		{
 			ID:          "C18",
-			Rules:       []RuleUse{use("R-DISPATCH", "legacy"), use("R-TOKEN", "legacy"), use("R-TOKTAB", "legacy"), use("R-REPLACE", "legacy"), use("R-MOVE", "legacy"), use("R-COPYISO", "legacy"), {Rule: "R-NIL", Bodies: []string{"legacy"}, KeyHas: []string{"(Patch)", "(*partial", "findObject", "(*lazyNode)", "deepCopy", "newLazyNode", "(Operation)"}}, use("R-RAW", "legacy"), use("R-STALERAW", "legacy"), use("R-RETSHAPE", "legacy"), use("R-ERRCHAIN", "legacy")},
-			Explanation: "Decided on the legacy body (which no baseline test compiles): R-DISPATCH (a) (six kinds reach their handlers, unknown kind is an error), R-TOKEN + R-TOKTAB (reference tokens decoded exactly once, RFC 6901 table), R-REPLACE, R-MOVE, R-COPYISO, R-NIL + R-RAW + R-STALERAW (no nil-node or nil-raw dereference), R-RETSHAPE (no document with an error; first failure ends the loop), R-ERRCHAIN (a failed test yields ErrTestFailed and nothing else does; unreachable parents and absent members yield ErrMissing).",
+			Rules:       []RuleUse{use("R-DISPATCH", "legacy"), use("R-TOKEN", "legacy"), use("R-TOKTAB", "legacy"), use("R-REPLACE", "legacy"), use("R-MOVE", "legacy"), use("R-COPYISO", "legacy"), {Rule: "R-NIL", Bodies: []string{"legacy"}, KeyHas: []string{"(Patch)", "(*partial", "findObject", "(*lazyNode)", "deepCopy", "newLazyNode", "(Operation)"}}, use("R-RAW", "legacy"), use("R-STALERAW", "legacy"), use("R-RETSHAPE", "legacy"), use("R-ERRCHAIN", "legacy"), {Rule: "R-ABSENT", Bodies: []string{"legacy"}, KeyHas: []string{"(*partialDoc)", ".equal"}}, use("R-ROOTDISPATCH", "legacy"), use("R-WS", "legacy")},
+			Explanation: "Decided on the legacy body (which no baseline test compiles): R-DISPATCH (a) (six kinds reach their handlers, unknown kind is an error), R-TOKEN + R-TOKTAB (reference tokens decoded exactly once, RFC 6901 table), R-REPLACE, R-MOVE, R-COPYISO, R-NIL + R-RAW + R-STALERAW (no nil-node or nil-raw dereference), R-RETSHAPE (no document with an error; first failure ends the loop), R-ERRCHAIN (a failed test yields ErrTestFailed and nothing else does; unreachable parents and absent members yield ErrMissing), R-ABSENT (remove and equal distinguish absent from null by comma-ok; get's v4 behaviour is a reviewed exception), R-ROOTDISPATCH + R-WS (the root kind is decided after skipping all JSON whitespace).",
 			NotDecided:  "value-level RFC 6902 equivalence.",
 			Trusted:     commonTrusted, Assumptions: commonAssumptions,
 		},
 		{
 			ID:          "C19",
-			Rules:       []RuleUse{use("R-MERGEWIRE", "legacy"), {Rule: "R-NIL", Bodies: []string{"legacy"}, KeyHas: []string{"doMergePatch", "merge", "prune", "Equal", ".equal", "createArrayMergePatch"}}},
-			Explanation: "Decided on the legacy body: R-MERGEWIRE (mode flags and parameter order of MergePatch / MergeMergePatches), R-NIL over the merge walk and equal (no nil-node dereference).",
+			Rules:       []RuleUse{use("R-MERGEWIRE", "legacy"), {Rule: "R-NIL", Bodies: []string{"legacy"}, KeyHas: []string{"doMergePatch", "merge", "prune", "Equal", ".equal", "createArrayMergePatch"}}, {Rule: "R-ABSENT", Bodies: []string{"legacy"}, KeyHas: []string{".equal", "mergeDocs"}}, {Rule: "R-MAPORDER", Bodies: []string{"legacy"}}},
+			Explanation: "Decided on the legacy body: R-MERGEWIRE (mode flags and parameter order of MergePatch / MergeMergePatches), R-NIL over the merge walk and equal (no nil-node dereference), R-ABSENT (equal and mergeDocs tell an absent member from a null one with tested comma-ok lookups), R-MAPORDER (no order-sensitive effect under the map ranges of equal, getDiff, matchesValue).",
 			NotDecided:  "the merge, diff and composition laws themselves (value-level).",
 			Trusted:     commonTrusted, Assumptions: commonAssumptions,
 		},
